@@ -1,6 +1,9 @@
 -- GENERATED: all generated tables
 import HotXL.Generated.Cell
+import HotXL.Generated.Criteria
+import HotXL.Generated.DateTime
 import HotXL.Generated.Grammar
 import HotXL.Generated.Lexer
 import HotXL.Generated.Operators
 import HotXL.Generated.Registry
+import HotXL.Generated.Round
